@@ -28,6 +28,8 @@ def check(reg, tier):
     _call_Fq(reg)
     _make_kernel_args(reg)
     _load_custom_model(reg)
+    _dispersion_init(reg)
+    _clone(reg)
     # frames proved under C10/C07/C08 are part of this property as well
     c10_ids = _rerun(reg, c10._call_kernel_contract, "C10", "frame")
     c10_ids += _rerun(reg, c10._calc_theory_contract, "C10", "frame")
@@ -200,3 +202,122 @@ def _replay_load_custom_model():
     bad = not (np.isclose(y1, want1) and np.isclose(y2, want2))
     return bool(bad), {"call": "load_custom_model(plugin) / edit the plugin (newer mtime) / load_custom_model(plugin)",
                        "real": [float(y1), float(y2)], "spec": [want1, want2]}
+
+
+def _same_entries(a, b):
+    """Entry-wise comparison of two SDict entry tables that may hold symbolic values (identity for those)."""
+    from vp.pyvc import Sym
+    if set(a) != set(b):
+        return False
+    for k in a:
+        (p1, v1), (p2, v2) = a[k], b[k]
+        if p1 is not p2 and p1 != p2:
+            return False
+        if v1 is v2:
+            continue
+        if isinstance(v1, Sym) or isinstance(v2, Sym):
+            return False
+        if v1 != v2:
+            return False
+    return True
+
+
+def _dispersion_init(reg):
+    """weights.Dispersion.__init__: the instance takes the given values or the class defaults; the class-level
+    `default` table (shared by every later instance of the type) is not modified."""
+    import z3
+    from vp.pyvc import Interp, Sym
+    import sasmodels.weights as live
+    fn = "sasmodels.weights.Dispersion.__init__"
+    for given in ((True, True, True), (True, False, True), (False, False, False), (False, True, False)):
+        def body(it, given=given):
+            default = it.new_dict({"npts": (True, 35), "width": (True, 0), "nsigmas": (True, 3)})
+            before = dict(default.entries)
+            selfo = it.new_obj(live.GaussianDispersion, {"default": default}, "GaussianDispersion")
+            npts, width, nsig = 11, Sym(z3.Real("width")), Sym(z3.Real("nsigmas"))
+            f = it.get_func("sasmodels.weights", "Dispersion.__init__")
+            it.call(f, [selfo], {"npts": npts if given[0] else None, "width": width if given[1] else None,
+                                 "nsigmas": nsig if given[2] else None})
+            tag = "".join("g" if g else "d" for g in given)
+            got = (it.getattr(selfo, "npts"), it.getattr(selfo, "width"), it.getattr(selfo, "nsigmas"))
+            want = (npts if given[0] else 35, width if given[1] else 0, nsig if given[2] else 3)
+            ok = all((a is b) or (not isinstance(a, Sym) and not isinstance(b, Sym) and a == b) for a, b in zip(got, want))
+            reg.prove("%s.Dispersion.__init__.takes_given_values_or_class_defaults.%s" % (PROP, tag), it.pc,
+                      z3.BoolVal(bool(ok)), function=fn, replay=lambda mdl=None: _replay_dispersion_defaults())
+            reg.prove("%s.Dispersion.__init__.frame.class_defaults_unmodified.%s" % (PROP, tag), it.pc,
+                      z3.BoolVal(_same_entries(dict(default.entries), before)), function=fn,
+                      replay=lambda mdl=None: _replay_dispersion_defaults())
+        it = Interp(reg)
+        it.poison_one_arm = False
+        it.run_paths(body)
+
+
+def _replay_dispersion_defaults():
+    from sasmodels import weights
+    before = dict(weights.GaussianDispersion.default)
+    try:
+        weights.GaussianDispersion(npts=9, width=0.3, nsigmas=2.0)
+        d = weights.GaussianDispersion()
+        got = {"npts": d.npts, "width": d.width, "nsigmas": d.nsigmas}
+        after = dict(weights.GaussianDispersion.default)
+    finally:
+        weights.GaussianDispersion.default.clear()
+        weights.GaussianDispersion.default.update(before)
+        weights.Dispersion.default.update(dict(npts=35, width=0, nsigmas=3))
+    bad = got != before or after != before
+    return bad, {"call": "GaussianDispersion(npts=9, width=0.3, nsigmas=2.0) ; GaussianDispersion()",
+                 "real": got, "spec": before}
+
+
+def _clone(reg):
+    """SasviewModel.clone: the copy shares no mutable table with the original (parameters, details, and the
+    per-parameter dispersion dictionaries), and carries equal contents."""
+    import z3
+    from vp.pyvc import Interp, Sym, SDict
+    import sasmodels.sasview_model as live
+    fn = "sasmodels.sasview_model.SasviewModel.clone"
+
+    def body(it):
+        def disp():
+            return it.new_dict({"width": (True, Sym(z3.Real("w"))), "npts": (True, 35), "nsigmas": (True, 3.0),
+                                "type": (True, "gaussian")})
+        dispersion = it.new_dict({"radius": (True, disp()), "length": (True, disp())})
+        params = it.new_dict({"radius": (True, Sym(z3.Real("radius"))), "length": (True, 400.0)})
+        details = it.new_dict({"radius": (True, it.new_list(["A", 0.0, 100.0]))})
+        pers = it.new_dict({})
+        selfo = it.new_obj(live.SasviewModel, {"dispersion": dispersion, "params": params, "details": details,
+                                               "_persistency_dict": pers}, "SasviewModel")
+        f = it.get_func("sasmodels.sasview_model", "SasviewModel.clone")
+        out = it.call(f, [selfo])
+        g = lambda o, n: it.getattr(o, n)
+        ok_top = all(g(out, n) is not g(selfo, n) for n in ("dispersion", "params", "details"))
+        d1, d2 = g(selfo, "dispersion"), g(out, "dispersion")
+        ok_inner = isinstance(d2, SDict) and all(d2.entries[k][1] is not d1.entries[k][1] for k in d1.entries)
+        ok_equal = isinstance(d2, SDict) and all(
+            {a: v[1] for a, v in d2.entries[k][1].entries.items()} == {a: v[1] for a, v in d1.entries[k][1].entries.items()}
+            or all(d2.entries[k][1].entries[a][1] is d1.entries[k][1].entries[a][1] or
+                   d2.entries[k][1].entries[a][1] == d1.entries[k][1].entries[a][1] for a in d1.entries[k][1].entries)
+            for k in d1.entries)
+        reg.prove("%s.clone.shares_no_mutable_table_with_the_original" % PROP, it.pc,
+                  z3.BoolVal(bool(out is not selfo and ok_top and ok_inner)), function=fn,
+                  replay=lambda mdl=None: _replay_clone())
+        reg.prove("%s.clone.carries_equal_contents" % PROP, it.pc, z3.BoolVal(bool(ok_equal)), function=fn,
+                  replay=lambda mdl=None: _replay_clone())
+    it = Interp(reg)
+    it.poison_one_arm = False
+    it.run_paths(body)
+
+
+def _replay_clone():
+    from sasmodels.sasview_model import make_model_from_info
+    from sasmodels.core import load_model_info
+    base = make_model_from_info(load_model_info("cylinder"))()
+    before = {k: dict(v) for k, v in base.dispersion.items()}
+    c = base.clone()
+    c.setParam("radius.width", 0.25)
+    c.setParam("radius.npts", 11)
+    c.setParam("length.width", 0.2)
+    after = {k: dict(v) for k, v in base.dispersion.items()}
+    bad = after != before or c.dispersion["radius"]["width"] != 0.25
+    return bad, {"call": "base.clone().setParam('radius.width', 0.25) ...; inspect base.dispersion",
+                 "real": {k: after[k] for k in ("radius", "length")}, "spec": {k: before[k] for k in ("radius", "length")}}
